@@ -388,7 +388,7 @@ class Frame:
                 k_ = None
                 for q in cur:
                     for q2, t in self.expr(item.context_expr, q):
-                        pc = self.plain_class(t) if q2.status == "live" else None
+                        pc = self.plain_class(t, context_manager=True) if q2.status == "live" else None
                         ent = pc.find_method("__enter__") if pc is not None else None
                         ext = pc.find_method("__exit__") if pc is not None else None
                         if ent is not None and ext is not None:
@@ -918,7 +918,49 @@ class Frame:
                 return p.env[f"self.{e.attr}"]
             if self.selfattrs is not None:
                 return self.selfattrs.get(e.attr)
+            cc = self.class_constant(e.attr)
+            if cc is not None:
+                return cc
             return self.child(e.attr)
+        return None
+
+    def class_constant(self, attr: str) -> Optional[Term]:
+        """A class-level constant (``_SELF_CHECKING = frozenset({"validate"})``): an attribute assigned once in the class body
+        to a literal or a display of literals, never stored on instances or re-bound anywhere in the repository."""
+        if self.cls is None or not attr.startswith("_") or attr.startswith("__"):
+            return None         # a public class attribute is a default that users may override per object
+        cache = self.ctx.__dict__.setdefault("class_constants", {})
+        key = (self.cls.qualname, attr)
+        if key in cache:
+            return cache[key]
+        cache[key] = None
+        for kc in self.cls.mro():
+            vals = [st.value for st in kc.node.body if isinstance(st, (ast.Assign, ast.AnnAssign)) and getattr(st, "value", None) is not None
+                    and any(isinstance(t_, ast.Name) and t_.id == attr for t_ in (st.targets if isinstance(st, ast.Assign) else [st.target]))]
+            if not vals:
+                continue
+            if len(vals) != 1:
+                return None
+            v = vals[0]
+            if isinstance(v, ast.Call) and isinstance(v.func, ast.Name) and v.func.id in ("frozenset", "tuple", "set", "list") and len(v.args) == 1 and not v.keywords:
+                v = v.args[0]
+            items = None
+            if isinstance(v, ast.Constant) and isinstance(v.value, (str, int, bool)):
+                term: Optional[Term] = Const(v.value)
+            elif isinstance(v, (ast.Tuple, ast.List, ast.Set)) and all(isinstance(x, ast.Constant) for x in v.elts):
+                term = Seq([Const(x.value) for x in v.elts])
+            else:
+                return None
+            # stored on instances / re-bound anywhere?
+            for m_ in self.repo.modules.values():
+                for n_ in ast.walk(m_.tree):
+                    if isinstance(n_, ast.Attribute) and n_.attr == attr and isinstance(n_.ctx, (ast.Store, ast.Del)):
+                        return None
+                    if isinstance(n_, ast.Call) and isinstance(n_.func, ast.Name) and n_.func.id == "setattr" and len(n_.args) >= 2 \
+                            and isinstance(n_.args[1], ast.Constant) and n_.args[1].value == attr:
+                        return None
+            cache[key] = term
+            return term
         return None
 
     def child(self, attr: str) -> Term:
@@ -1056,6 +1098,8 @@ class Frame:
                 out.extend(self._branch_term(tt, q, txt))
                 continue
             d = d0 if d0 is not None else self.implied(q, tt)
+            if d is None and isinstance(tt, Const) and not isinstance(tt.v, _Sentinel):
+                d = bool(tt.v)          # the test evaluated to a constant on this path (a helper that returned False)
             if d is not False:
                 a = q.fork() if d is None else q
                 a.conds.append((txt, True, tt.key()))
@@ -1490,6 +1534,10 @@ class Frame:
                 return [(p, Fn("method", (self.cls, self.selfterm, self.selfattrs, owner.module), fn))]
         if attr == "__class__":
             return [(p, Sym("classof", (self.selfterm,)))]
+        if self.selfattrs is None or attr not in self.selfattrs:
+            cc = self.class_constant(attr)
+            if cc is not None:
+                return [(p, cc)]
         if self.selfattrs is not None:
             if attr in self.selfattrs:
                 return [(p, self.selfattrs[attr])]
@@ -1558,6 +1606,13 @@ class Frame:
             if hk in p.heap:
                 return [(p, p.heap[hk])]
             ci = self.plain_class(t)
+            if ci is None:
+                # a field of a public plain object built by the analysed code, set from a constructor argument: that argument
+                pub = self.plain_class(t, context_manager=True)
+                if pub is not None and pub.find_method(attr) is None:
+                    v = self.init_field(pub, t, attr)
+                    if v is not None:
+                        return [(p, v)]
             if ci is not None:
                 r = ci.find_method(attr)
                 if r is not None and any(ast.unparse(d) == "property" for d in r[1].decorator_list):
@@ -1569,12 +1624,15 @@ class Frame:
                         return [(p, v)]
         return [(p, Sym("attr", (t,), text=attr) if False else Sym(f"attr:{attr}", (t,)))]
 
-    def plain_class(self, t: Term) -> Optional[ClassInfo]:
+    def plain_class(self, t: Term, context_manager: bool = False) -> Optional[ClassInfo]:
         """The repository class of a ``new:<Name>(…)`` term (a plain, non-node object built by the analysed code)."""
         if isinstance(t, Sym) and t.head.startswith("new:"):
             # private helper classes are implementation detail to look through; calls on the public ones
-            # (Request.run, Runtime.handle, Cache.get …) are the events the rules talk about
-            hits = [c for c in self.repo.classes.values() if c.name == t.head[4:] and c.name.startswith("_")]
+            # (Request.run, Runtime.handle, Cache.get …) are the events the rules talk about.  As the manager of a ``with``
+            # a public helper class is looked through as well (its __enter__/__exit__ are what the statement means) —
+            # except a Runtime, whose entry is an event of its own
+            hits = [c for c in self.repo.classes.values() if c.name == t.head[4:] and (c.name.startswith("_") or (
+                context_manager and not c.is_subclass_of("Runtime") and c.name != "Runtime" and not c.module.name.startswith("labrea.mypy")))]
             if len(hits) == 1 and not (hits[0].is_subclass_of("Evaluatable") or hits[0].is_subclass_of("Effect")):
                 return hits[0]
         return None
